@@ -243,3 +243,169 @@ def run_helper_cases(helper_exe, cases, workers=8):
             return list(ex.map(lambda c: run_helper_one(helper_exe, c, stub), cases))
     finally:
         shutil.rmtree(d, ignore_errors=True)
+
+
+# ---------------------------------------------------------------- the bus's service-file cache (bus/activation.c)
+CACHE_NAMES = [b"a.b", b"a.b", b"a.c", b"x.y", b":1.7", b"nodot"]
+
+
+def cache_content(rnd, name):
+    r = rnd.random()
+    ex = rnd.choice([b"/bin/x", b"/bin/y 1", b"/z 'q r'", b""])
+    if r < 0.70:
+        lines = [b"Name=" + name, b"Exec=" + ex]
+        if rnd.random() < 0.3:
+            lines.append(b"User=" + rnd.choice([b"root", b"u"]))
+        if rnd.random() < 0.2:
+            lines.append(b"SystemdService=" + rnd.choice([b"x.service", b""]))
+        rnd.shuffle(lines)
+        return SEC + b"\n" + b"\n".join(lines) + b"\n"
+    if r < 0.78:
+        return SEC + b"\nName=" + name + b"\n"                     # no Exec
+    if r < 0.86:
+        return SEC + b"\nExec=" + ex + b"\n"                        # no Name
+    if r < 0.92:
+        return b"[Other]\nName=" + name + b"\nExec=" + ex + b"\n"   # wrong group
+    return rnd.choice([b"Name=" + name + b"\n", SEC + b"\nName\n", b"\xff", b"", SEC + b"\nName=" + name + b"\\q\nExec=x\n"])
+
+
+def gen_cache_case(rnd):
+    """returns (flags, ops) with ops as tuples: ('W', d, fname, mtime, content) ('R', d, fname) ('X', d) ('M', d) ('L',) ('F', name)"""
+    nd = rnd.choice((1, 2, 2, 2, 3))
+    flags = "".join("1" if rnd.random() < 0.25 else "0" for _ in range(nd))
+    state = [dict() for _ in range(nd)]
+    ops = []
+
+    def fname_for(name):
+        return rnd.choice([name + b".service"] * 5 + [b"other.service", b"zz.service", name + b".servic", b"README", name.upper() + b".service"])
+
+    def write(d, mt=None):
+        if state[d] is None:
+            return
+        name = rnd.choice(CACHE_NAMES)
+        if state[d] and rnd.random() < 0.45:
+            fn = rnd.choice(sorted(state[d]))                        # rewrite an existing file (same / newer / older mtime)
+            old = state[d][fn][0]
+            mt = rnd.choice([old, old, old + 1, old + 5, max(0, old - 1)])
+        else:
+            fn = fname_for(name)
+            mt = rnd.randint(1, 9) if mt is None else mt
+        c = cache_content(rnd, name)
+        state[d][fn] = (mt, c)
+        ops.append(("W", d, fn, mt, c))
+
+    for _ in range(rnd.randint(1, 6)):
+        write(rnd.randrange(nd))
+    ops.append(("L",))
+    for _ in range(rnd.randint(3, 10)):
+        r = rnd.random()
+        d = rnd.randrange(nd)
+        if r < 0.30:
+            write(d)
+        elif r < 0.42:
+            if state[d]:
+                fn = rnd.choice(sorted(state[d]))
+                del state[d][fn]
+                ops.append(("R", d, fn))
+        elif r < 0.46:
+            if state[d] is not None:
+                state[d] = None
+                ops.append(("X", d))
+            else:
+                state[d] = {}
+                ops.append(("M", d))
+        elif r < 0.90:
+            ops.append(("F", rnd.choice(CACHE_NAMES)))
+        else:
+            ops.append(("L",))
+    ops.append(("F", rnd.choice(CACHE_NAMES)))
+    return flags, ops
+
+
+CACHE_FIXED = [
+    # first directory wins; a later duplicate is ignored
+    ("00", [("W", 0, b"a.b.service", 5, SEC + b"\nName=a.b\nExec=/x\n"), ("W", 1, b"a.b.service", 5, SEC + b"\nName=a.b\nExec=/y\n"), ("L",), ("F", b"a.b")]),
+    # finding F19.4: the winner is removed; the first lookup says unknown although the second directory has a valid file
+    ("00", [("W", 0, b"a.b.service", 5, SEC + b"\nName=a.b\nExec=/x\n"), ("W", 1, b"z.service", 5, SEC + b"\nName=a.b\nExec=/y\n"), ("L",), ("F", b"a.b"),
+            ("R", 0, b"a.b.service"), ("F", b"a.b"), ("F", b"a.b")]),
+    # strict naming: only in the directory flagged so
+    ("10", [("W", 0, b"zz.service", 5, SEC + b"\nName=a.b\nExec=/x\n"), ("W", 1, b"zz.service", 5, SEC + b"\nName=a.c\nExec=/y\n"), ("L",), ("F", b"a.b"), ("F", b"a.c")]),
+    # unique and malformed names are taken as they are (F19.1)
+    ("0", [("W", 0, b"u.service", 5, SEC + b"\nName=:1.7\nExec=/x\n"), ("W", 0, b"n.service", 5, SEC + b"\nName=nodot\nExec=/x\n"), ("L",), ("F", b":1.7")]),
+    # mtime: same second -> the change is not seen; newer -> reloaded; the Name changes to one that is taken -> entry dropped from the table, old object handed back
+    ("0", [("W", 0, b"a.b.service", 5, SEC + b"\nName=a.b\nExec=/x\n"), ("W", 0, b"a.c.service", 5, SEC + b"\nName=a.c\nExec=/y\n"), ("L",),
+           ("W", 0, b"a.b.service", 5, SEC + b"\nName=a.b\nExec=/changed\n"), ("F", b"a.b"),
+           ("W", 0, b"a.b.service", 6, SEC + b"\nName=a.b\nExec=/changed\n"), ("F", b"a.b"),
+           ("W", 0, b"a.b.service", 7, SEC + b"\nName=a.c\nExec=/clash\n"), ("F", b"a.b"), ("F", b"a.b"), ("F", b"a.c")]),
+    # a file that stops parsing keeps its old entry
+    ("0", [("W", 0, b"a.b.service", 5, SEC + b"\nName=a.b\nExec=/x\n"), ("L",), ("W", 0, b"a.b.service", 8, b"garbage"), ("F", b"a.b"), ("L",), ("F", b"a.b")]),
+    # added file found by the rescan on a miss; directory removed and recreated
+    ("00", [("L",), ("F", b"a.b"), ("W", 1, b"q.service", 3, SEC + b"\nExec=/x\nName=a.b\nUser=u\nSystemdService=s.service\n"), ("F", b"a.b"), ("X", 1), ("F", b"a.b"), ("M", 1), ("F", b"a.b")]),
+]
+
+
+def cache_impl_line(case):
+    flags, ops = case
+    hx = lambda b: b.hex() if b else "-"
+    toks = []
+    for op in ops:
+        if op[0] == "W":
+            toks.append("W.%d.%s.%d.%s" % (op[1], hx(op[2]), op[3], hx(op[4])))
+        elif op[0] == "R":
+            toks.append("R.%d.%s" % (op[1], hx(op[2])))
+        elif op[0] in "XM":
+            toks.append("%s.%d" % (op[0], op[1]))
+        elif op[0] == "L":
+            toks.append("L")
+        else:
+            toks.append("F.%s" % hx(op[1]))
+    return "cache %s %s" % (flags, " ".join(toks))
+
+
+def cache_model_line(case, impl_result):
+    """the model reads the same operations, with the file system as readdir showed it to the implementation at each L / F"""
+    flags, ops = case
+    hx = lambda b: b.hex() if b else "-"
+    state = [dict() for _ in flags]
+    outs = impl_result.split(" ")
+    k = 0
+    toks = []
+    for op in ops:
+        if op[0] == "W":
+            if state[op[1]] is not None:
+                state[op[1]][op[2]] = (op[3], op[4])
+        elif op[0] == "R":
+            if state[op[1]] is not None:
+                state[op[1]].pop(op[2], None)
+        elif op[0] == "X":
+            state[op[1]] = None
+        elif op[0] == "M":
+            if state[op[1]] is None:
+                state[op[1]] = {}
+        else:
+            if k >= len(outs) or outs[k].count("/") != 2:
+                return None
+            order = outs[k].split("/")[2].split("|")
+            k += 1
+            dirs = []
+            for d, o in enumerate(order):
+                if o == "!":
+                    dirs.append("!")
+                elif o == "-":
+                    dirs.append("-")
+                else:
+                    fs = []
+                    for fh in o.split(","):
+                        fn = bytes.fromhex(fh)
+                        if state[d] is None or fn not in state[d]:
+                            return None                      # the harness's book-keeping is off
+                        mt, c = state[d][fn]
+                        fs.append("%s:%d:%s" % (fh, mt, hx(c)))
+                    dirs.append(",".join(fs))
+            fsx = "|".join(dirs)
+            toks.append(("L@" if op[0] == "L" else "F.%s@" % hx(op[1])) + fsx)
+    return "cachem %s %s" % (flags, " ".join(toks))
+
+
+def cache_strip_order(impl_result):
+    return " ".join("/".join(t.split("/")[:2]) for t in impl_result.split(" "))
